@@ -343,6 +343,39 @@ func VerifRun_C18d() {
 		Position:     lsp.Position{Line: 0, Character: uint32(len("local r = "+call+"(\"") + cursor)}}
 	locs, _ := l.TextDocumentDefine(context.Background(), pos)
 	ends := func(s, suf string) bool { return len(s) >= len(suf) && s[len(s)-len(suf):] == suf }
+	// hover on the string names the file go-to-definition opens, and nothing when there is none
+	hov, _ := l.TextDocumentHover(context.Background(), pos)
+	shown := ""
+	if h, ok := hov.(MarkupHover); ok {
+		shown = h.Contents.Value
+	}
+	namesFile := false
+	for i := 0; i+11 <= len(shown); i++ {
+		if shown[i:i+11] == "lua file : " {
+			namesFile = true
+		}
+	}
+	if len(locs) == 0 && namesFile {
+		verifViolation(dclass, "hover on a module string names a file although go-to-definition finds none")
+	}
+	if len(locs) > 0 {
+		// the text ends with the (relative) name of the file
+		k := len(shown)
+		for k > 0 && shown[k-1] != ' ' && shown[k-1] != '\n' && shown[k-1] != '\r' {
+			k--
+		}
+		named := shown[k:]
+		okh := false
+		for _, lc := range locs {
+			if named != "" && ends(string(lc.URI), named) {
+				okh = true
+			}
+		}
+		if !okh {
+			verifObserve("hover", shown)
+			verifViolation(dclass, "hover on a module string does not name the file go-to-definition opens")
+		}
+	}
 	if loaded == "" && len(locs) > 0 {
 		verifViolation(dclass, "go-to-definition on the module string opens a file although the analysis found none")
 	}
